@@ -1,6 +1,7 @@
 //@inject src/linux/maps_reader.rs
 // Kani obligations on src/linux/maps_reader.rs (C20 stack scan, C08 filters, C02 totality).
 use super::*;
+extern crate alloc;
 
 fn any_perms() -> MMPermissions {
     MMPermissions::from_bits_truncate(kani::any())
@@ -127,4 +128,103 @@ fn vk_safe_to_open_table() {
     assert!(MappingInfo::is_mapped_file_safe_to_open(&Some(OsString::from("/devx"))));
     assert!(MappingInfo::is_mapped_file_safe_to_open(&Some(OsString::from("/a"))));
     assert!(MappingInfo::is_mapped_file_safe_to_open(&None));
+}
+
+// ---------------------------------------------------------------------------
+// [B] MappingInfo::aggregate (C13) on symbolic NUMBERS: addresses, sizes, offsets, permissions and the vDSO
+// address are symbolic, names are concrete per harness (strings are a cost cliff), `format!` is stubbed.
+// `MemoryMaps` is #[non_exhaustive] and `MMapExtension` holds a HashMap (getrandom): both are built by
+// transmute / zeroed in the harness only (ledger item 9).
+//   one line   : exactly one derived mapping with that line's extent, offset, permissions and name
+//                (or the gate name when it starts at the vDSO address and is not a path)
+//   two lines, same path : merged into one mapping (hull, OR of permissions) iff contiguous; otherwise two
+//                mappings in order
+// ---------------------------------------------------------------------------
+fn g_format(_a: core::fmt::Arguments<'_>) -> String { String::new() }
+
+fn mk_map(start: u64, end: u64, perms: MMPermissions, offset: u64, path: MMapPath) -> procfs_core::process::MemoryMap {
+    procfs_core::process::MemoryMap {
+        address: (start, end), perms, offset, dev: (0, 0), inode: 0, pathname: path,
+        extension: unsafe { core::mem::zeroed() },
+    }
+}
+fn mk_maps(v: Vec<procfs_core::process::MemoryMap>) -> MemoryMaps {
+    unsafe { core::mem::transmute::<Vec<procfs_core::process::MemoryMap>, MemoryMaps>(v) }
+}
+
+#[kani::proof]
+#[kani::stub(alloc::fmt::format, g_format)]
+#[kani::unwind(4)]
+fn vk_aggregate_one_line_path() {
+    let (s, e): (u64, u64) = (kani::any(), kani::any());
+    kani::assume(s < e);
+    let perms = any_perms();
+    let off: u64 = kani::any();
+    let gate: Option<u64> = if kani::any() { Some(kani::any()) } else { None };
+    let maps = mk_maps(vec![mk_map(s, e, perms, off, MMapPath::Path(PathBuf::from("/a")))]);
+    match MappingInfo::aggregate(maps, gate) {
+        Ok(out) => {
+            assert!(out.len() == 1);
+            let m = &out[0];
+            assert!(m.start_address == s as usize && m.size == (e - s) as usize);
+            assert!(m.system_mapping_info.start_address == s as usize && m.system_mapping_info.end_address == e as usize);
+            assert!(m.permissions == perms && m.offset == off as usize);   // a path is never renamed to the gate library
+            assert!(m.name.as_deref() == Some(OsStr::new("/a")));
+            core::mem::forget(out);
+        }
+        Err(e) => { core::mem::forget(e); assert!(false); }
+    }
+}
+
+#[kani::proof]
+#[kani::stub(alloc::fmt::format, g_format)]
+#[kani::unwind(4)]
+fn vk_aggregate_one_line_anonymous_gate() {
+    let (s, e): (u64, u64) = (kani::any(), kani::any());
+    kani::assume(s < e);
+    let gate: Option<u64> = if kani::any() { Some(kani::any()) } else { None };
+    let off: u64 = kani::any();
+    let maps = mk_maps(vec![mk_map(s, e, any_perms(), off, MMapPath::Anonymous)]);
+    match MappingInfo::aggregate(maps, gate) {
+        Ok(out) => {
+            assert!(out.len() == 1);
+            let m = &out[0];
+            assert!(m.start_address == s as usize && m.size == (e - s) as usize);
+            if gate == Some(s) {
+                assert!(m.name.as_deref() == Some(OsStr::new(LINUX_GATE_LIBRARY_NAME)) && m.offset == 0);   // gate naming
+            } else {
+                assert!(m.name.is_none() && m.offset == off as usize);
+            }
+            core::mem::forget(out);
+        }
+        Err(e) => { core::mem::forget(e); assert!(false); }
+    }
+}
+
+#[kani::proof]
+#[kani::stub(alloc::fmt::format, g_format)]
+#[kani::unwind(5)]
+fn vk_aggregate_two_lines_same_path() {
+    let (s0, e0, s1, e1): (u64, u64, u64, u64) = (kani::any(), kani::any(), kani::any(), kani::any());
+    kani::assume(s0 < e0 && e0 <= s1 && s1 < e1);    // a well-formed map: ascending, no overlap
+    let (p0, p1) = (any_perms(), any_perms());
+    let maps = mk_maps(vec![
+        mk_map(s0, e0, p0, kani::any(), MMapPath::Path(PathBuf::from("/a"))),
+        mk_map(s1, e1, p1, kani::any(), MMapPath::Path(PathBuf::from("/a"))),
+    ]);
+    match MappingInfo::aggregate(maps, None) {
+        Ok(out) => {
+            if e0 == s1 {
+                assert!(out.len() == 1);                                                  // contiguous, same name: merged
+                assert!(out[0].start_address == s0 as usize && out[0].size == (e1 - s0) as usize);   // extent == hull
+                assert!(out[0].permissions == (p0 | p1));
+            } else {
+                assert!(out.len() == 2);                                                  // a hole: never merged
+                assert!(out[0].start_address == s0 as usize && out[0].size == (e0 - s0) as usize);
+                assert!(out[1].start_address == s1 as usize && out[1].size == (e1 - s1) as usize);
+            }
+            core::mem::forget(out);
+        }
+        Err(e) => { core::mem::forget(e); assert!(false); }
+    }
 }
